@@ -82,6 +82,8 @@ type c12Report struct {
 	Goroutines  map[string]int `json:"rounds_by_goroutine_count"`
 	Kinds       map[string]int `json:"rounds_by_root_kind"`
 	Panics      []string       `json:"panics"`
+	WithErrors  int            `json:"responses_with_application_errors"`
+	Shared      int            `json:"responses_with_shared_error_value"`
 	SampleRound interface{}    `json:"sample_round"`
 }
 
@@ -189,7 +191,7 @@ func c12Child(args []string) int {
 		var reqs []c12Req
 		var coldRoot func() *ggql.Root
 		kind := "zoo"
-		if round%3 == 2 {
+		if round%3 == 2 && round%6 != 5 {
 			kind = "generated-reflect"
 			var ec *execCase
 			for {
@@ -212,6 +214,50 @@ func c12Child(args []string) int {
 				reqs = append(reqs, c12Req{dc.Doc.Print(model.LayoutN(r.Intn(model.LayoutCount))), dc.OpName, dc.Vars})
 			}
 			reqs = append(reqs, c12Req{`{ __schema { types { name kind fields { name } possibleTypes { name } } } }`, "", nil})
+		} else if round%6 == 5 {
+			// the Resolver / AnyResolver strategies (and roots mixing them with reflection): application errors of every
+			// shape - among them ONE error value the application keeps and returns from every failing site - are raised
+			// in all requests at once; what ggql adds to an error (location, path) belongs to the request, not to the value
+			kind = "generated-" + []string{"iface", "any", "mixed-any", "mixed-reflect"}[(round/6)%4]
+			bk := strings.TrimPrefix(kind, "generated-")
+			var ec *execCase
+			for {
+				ec = newExecCaseG(r, gen.SchemaOpts{Args: true}, gen.DocOpts{Frags: true, Dirs: true, Vars: true, Aliases: true, Depth: 2 + r.Intn(2)}, gen.GraphOpts{})
+				if bk != "mixed-reflect" || back.ReflectFriendly(ec.S) {
+					break
+				}
+			}
+			reqs = append(reqs, c12Req{ec.Text, ec.DC.OpName, ec.DC.Vars})
+			for k := 0; k < 5; k++ {
+				dc := gen.Doc(r, ec.S, gen.DocOpts{Frags: true, Dirs: true, Vars: true, Aliases: true, Depth: 2 + r.Intn(2)})
+				reqs = append(reqs, c12Req{dc.Doc.Print(model.LayoutN(r.Intn(model.LayoutCount))), dc.OpName, dc.Vars})
+			}
+			// plant failures at calls the requests really make
+			probe, err := back.Build(bk, ec.S, ec.SDL, ec.G)
+			if err != nil {
+				panic(err)
+			}
+			ys.on = false
+			for _, rq := range reqs {
+				probe.Root.ResolveString(rq.text, rq.op, copyVars(rq.vars))
+			}
+			ys.on = true
+			plan := model.FaultPlan{}
+			fk := []string{"sentinel", "error", "sentinel", "group", "gerror", "wgroup", "sentinel"}
+			for ci, cl := range probe.Calls {
+				if cl.Key.Occ == 0 && r.Intn(4) == 0 && len(plan) < 12 {
+					plan[cl.Key] = model.Fault{Kind: fk[(ci+round)%len(fk)], N: 2}
+				}
+			}
+			coldRoot = func() *ggql.Root {
+				h, err := back.Build(bk, ec.S, ec.SDL, ec.G)
+				if err != nil {
+					panic(err)
+				}
+				h.AllOcc = true
+				h.Reset(plan)
+				return h.Root
+			}
 		} else {
 			coldRoot = func() *ggql.Root {
 				root, _, err := zoo.NewRoot()
@@ -284,6 +330,12 @@ func c12Child(args []string) int {
 				rep.Requests++
 				rep.Compared++
 				ri := idx[gi][k]
+				if strings.HasPrefix(kind, "generated-") && kind != "generated-reflect" && strings.Contains(txt, "injected failure") {
+					rep.WithErrors++
+					if strings.Contains(txt, "shared sentinel instance") {
+						rep.Shared++
+					}
+				}
 				if txt != alone[ri] && len(rep.Mismatches) < 10 {
 					rep.Mismatches = append(rep.Mismatches, c12Mismatch{Round: round, Kind: kind, Request: reqs[ri].text, Vars: fmt.Sprint(reqs[ri].vars), Alone: alone[ri], Together: txt})
 				}
@@ -350,8 +402,9 @@ func parseRaceLogs(glob string) (map[string]string, int) {
 
 func runC12(c *run.Ctx) {
 	c.Rule = "rounds on a COLD root (fresh NewRoot + schema load, nothing lazily registered): N in {2,4,16,64} goroutines parked on a barrier are released at once, each issuing requests from a mix that covers " +
-		"every first-use path (reflection fields, methods, (value,error) methods, union dispatch, interface-typed fields, @go and by-name binding, fragments, variables, introspection, parsing); two root kinds " +
-		"(hand-written reflection schema with methods; generated schemas over registered dynamic struct types). Build: -race (implies checkptr). Monitors: Go race detector log (any report is a violation, " +
+		"every first-use path (reflection fields, methods, (value,error) methods, union dispatch, interface-typed fields, @go and by-name binding, fragments, variables, introspection, parsing); three root kinds " +
+		"(hand-written reflection schema with methods; generated schemas over registered dynamic struct types; generated schemas served by Resolver / AnyResolver objects, alone and mixed with reflection, whose " +
+		"resolvers fail with every error shape including one error VALUE shared by all failing sites and requests). Build: -race (implies checkptr). Monitors: Go race detector log (any report is a violation, " +
 		"deduplicated by the pair of innermost ggql frames), per-request response equality with a sequentially used separate root, stall monitor with two goroutine dumps. The verifYield hook (PRNG: nothing/Gosched/" +
 		"1-50us sleep) widens the windows at the lazy-registration sites. A round is non-trivial when >=2 goroutines ran >=2 distinct requests; distinct by (round seed)"
 	rounds := c.N(240, 30000)
@@ -448,6 +501,8 @@ func runC12(c *run.Ctx) {
 		for s, n := range res.rep.Kinds {
 			kinds[s] += n
 		}
+		c.Count("concurrent_responses_with_application_errors", res.rep.WithErrors)
+		c.Count("concurrent_responses_with_shared_error_value", res.rep.Shared)
 		for _, m := range res.rep.Mismatches {
 			c.Violation("c12-isolation", map[string]interface{}{"round": m.Round, "root": m.Kind, "request": m.Request, "vars": m.Vars, "alone": m.Alone, "concurrent": m.Together})
 		}
